@@ -879,6 +879,8 @@ impl DiskIO {
                     crate::verif::queued("uring", offset, unsafe {
                         std::slice::from_raw_parts(verif_view.0, verif_view.1)
                     });
+                    #[cfg(feature = "verif")]
+                    crate::verif::note("uring_push", write_e.get_user_data(), 0);
                     queued += 1;
                 }
 
@@ -919,6 +921,8 @@ impl DiskIO {
                         &mut first_error,
                     );
                     drop(self.ring.take());
+                    #[cfg(feature = "verif")]
+                    crate::verif::note("uring_ring_gone", 0, 0);
                     return Err(submit_error);
                 }
 
@@ -1049,6 +1053,8 @@ fn process_completions(
     first_error: &mut Option<FeoxError>,
 ) {
     for cqe in ring.completion() {
+        #[cfg(feature = "verif")]
+        crate::verif::note("uring_cqe", cqe.user_data(), 0);
         let index = cqe.user_data().wrapping_sub(user_data_base);
         if index >= queued as u64 {
             continue;
